@@ -144,6 +144,14 @@ CHECKS = {
         "DESIGN.md section 6 C16",
         "E3",
     ),
+    "C17": (
+        "exploration",
+        "bounded program enumeration: every grammar body the independent rule set M9 classifies invalid + every single rule-violating edit of a catalogue at every eligible site of every valid program, run through the real generator",
+        "All M9-invalid bodies of the tier grammar and the complete single-edit neighbourhood (unit-level edits judged via M9, tree-level edits ill-formed by construction) must make the generator raise.",
+        "M9 is our transcription of the grammar rules (Appendix D); quick tier edits a stated subset of the base programs.",
+        "DESIGN.md section 6 C17",
+        "E3",
+    ),
     "C19": (
         "exploration",
         "bounded program x instance x operation-history enumeration on generated classes (setattr of every public name at every nesting level, caller-side list mutation, repeated serialize)",
